@@ -87,6 +87,22 @@ Proof.
   destruct z as [|n|n]; [discriminate| |]; destruct (n =? rs); discriminate.
 Qed.
 
+(* ... and never lets the inflater produce more than the blob size limit, whatever the stream
+   would inflate to *)
+Lemma inflated_bytes_bounded : forall e, inflated_bytes current e <= maxBlobSize.
+Proof.
+  intros [|rs z|]; unfold inflated_bytes; cbn [v_inflate_unbounded current]; unfold maxBlobSize; try lia.
+  destruct ((rs <? 0) || (rs >=? 33554432)) eqn:E; [lia|].
+  apply orb_false_iff in E. destruct E as [_ E]. apply geb_false_inv in E. lia.
+Qed.
+
+Lemma inflated_bytes_follow_raw_size : forall rs z,
+  inflated_bytes current (EncZlib rs z) <= Z.max 0 (rs + 1).
+Proof.
+  intros rs z. unfold inflated_bytes; cbn [v_inflate_unbounded current].
+  destruct ((rs <? 0) || (rs >=? maxBlobSize)); lia.
+Qed.
+
 Lemma get_data_bad : forall e, enc_bad e = true -> get_data current 0 e = GErr.
 Proof.
   intros [|rs z|] H; cbn [enc_bad] in H; try discriminate; [|reflexivity].
